@@ -268,6 +268,7 @@ Arg(i) == [lit |-> <<>>, arg |-> i]
 KeyN(n) == <<107, 48 + n>>                             \* "k0" .. "k5": n slots filled in order
 KeyR == <<107, 114>>                                   \* "kr": explicit indices, second argument first
 KeyU == <<122, 122>>                                   \* "zz": not in the table
+KeyE == <<107, 101>>                                   \* "ke": in the table, its translation is the empty string
 Lang == <<
   [key |-> KeyN(0), tpl |-> <<Lit(<<104, 101, 108, 108, 111>>)>>],                                                     \* hello
   [key |-> KeyN(1), tpl |-> <<Lit(<<49, 48, 48, 37, 32, 111, 102, 32>>), Arg(1), Lit(<<32, 106, 111, 105, 110, 101, 100>>)>>],  \* 100% of %s joined
@@ -275,7 +276,8 @@ Lang == <<
   [key |-> KeyN(3), tpl |-> <<Arg(1), Lit(<<47>>), Arg(2), Lit(<<32>>), Arg(3)>>],                                      \* %s/%s %s
   [key |-> KeyN(4), tpl |-> <<Arg(1), Lit(<<44, 32>>), Arg(2), Lit(<<44, 32>>), Arg(3), Lit(<<44, 32>>), Arg(4)>>],
   [key |-> KeyN(5), tpl |-> <<Lit(<<91>>), Arg(1), Arg(2), Lit(<<45>>), Arg(3), Lit(<<45>>), Arg(4), Arg(5), Lit(<<93>>)>>],
-  [key |-> KeyR, tpl |-> <<Arg(2), Lit(<<32, 98, 121, 32>>), Arg(1)>>] >>                                               \* %[2]s by %[1]s
+  [key |-> KeyR, tpl |-> <<Arg(2), Lit(<<32, 98, 121, 32>>), Arg(1)>>],
+  [key |-> KeyE, tpl |-> <<>>] >>                                               \* %[2]s by %[1]s
 Known(k) == \E i \in 1..Len(Lang) : Lang[i].key = k
 Tpl(k) == Lang[CHOOSE i \in 1..Len(Lang) : Lang[i].key = k].tpl
 Slots(k) == IF Known(k) THEN Cardinality({Tpl(k)[i].arg : i \in 1..Len(Tpl(k))} \ {0}) ELSE 0
@@ -342,7 +344,8 @@ aOpenUrl == <<111, 112, 101, 110, 95, 117, 114, 108>>
 ClickV == <<[action |-> aOpenUrl, value |-> Tq], [action |-> <<>>, value |-> <<>>], [action |-> Tp, value |-> Tpc]>>
 NumKids == <<Txt(DecText(1)), Txt(DecText(37)), Txt(DecText(-5)), Txt(DecText(127)), Txt(DecText(-128))>>
 \* translate variants: 1..6 -> k0..k5 with that many arguments; 7 -> kr; 8 -> unknown key, no arguments;
-\* 9 -> unknown key, one argument; 10 -> k2 with numeric arguments; 11 -> k3 with numeric arguments
+\* 9 -> unknown key, one argument; 10 -> k2 with numeric arguments; 11 -> k3 with numeric arguments;
+\* 12 -> a known key with an empty translation
 TransV(c, v, K) ==
   CASE v \in 1..6 -> [c EXCEPT !.translate = KeyN(v - 1), !.with = Take(K, v, v - 1)]
     [] v = 7 -> [c EXCEPT !.translate = KeyR, !.with = Take(K, 1, 2)]
@@ -350,7 +353,8 @@ TransV(c, v, K) ==
     [] v = 9 -> [c EXCEPT !.translate = KeyU, !.with = Take(K, 2, 1)]
     [] v = 10 -> [c EXCEPT !.translate = KeyN(2), !.with = Take(NumKids, 0, 2)]
     [] v = 11 -> [c EXCEPT !.translate = KeyN(3), !.with = Take(NumKids, 2, 3)]
-NVar(f) == CASE f \in 1..5 -> 1 [] f \in 6..9 -> 3 [] f = 10 -> 4 [] f = 11 -> 11 [] f = 12 -> 4 [] f = 13 -> Len(Toks)
+    [] v = 12 -> [c EXCEPT !.translate = KeyE]            \* a known key whose translation is empty: renders as nothing
+NVar(f) == CASE f \in 1..5 -> 1 [] f \in 6..9 -> 3 [] f = 10 -> 4 [] f = 11 -> 12 [] f = 12 -> 4 [] f = 13 -> Len(Toks)
 \* feature f in variant v applied to c, children drawn from the sequence K
 F(c, f, v, K) ==
   CASE f = 1 -> [c EXCEPT !.bold = TRUE]
